@@ -35,7 +35,7 @@ class C15(Spec):
 
     def same(self, case, impl, model):
         t = case.split()
-        if t[0] == "K" and int(t[2]) > 1 and any(x[0] in "xX" for x in t[4].split(",")) and not impl.startswith(("CRASH", "HANG")):
+        if t[0] == "K" and int(t[2]) > 1 and any(x[0] in "xXz" for x in t[4].split(",")) and not impl.startswith(("CRASH", "HANG")):
             # several connections and a server that closes some: WHICH queued request is handed to the closing connection
             # depends on which response arrives first. Compared exactly: the requests that start on fresh connections;
             # for the others the oracle decides (settled, own response or rejected)
@@ -59,7 +59,10 @@ class C15(Spec):
                 "K 1 1 600 q a", "K 1 1 600 Q a", "K 1 1 600 q,Q,a,q,Q,a q,Q", "K 2 2 600 Q,q,Q,q,a,d -",
                 "K 1 1 5000 " + ",".join(["T@20,a@0"] * 12) + " -", "K 1 1 5000 " + ",".join(["T@20,a@5000"] * 12) + " -",
                 "K 2 2 5000 " + ",".join(["T@25,a@0,a@3000"] * 8) + " -",
-                "L 1 4000", "L 2 3000", "C 1 500", "C 2 300", "C 1 0"]
+                "L 1 4000", "L 2 3000", "C 1 500", "C 2 300", "C 1 0",
+                # found by the review of the fourth/fifth round's client fixes (all fixed): several requests for a refusing host
+                # (abort), a request handed over to a connection the server has just reset (self-deadlock of the client)
+                "C 1 500 3", "C 2 300 8", "C 1 0 5", "K 1 1 600 d,z,a -", "K 1 1 600 z,a,a -", "K 2 1 600 a,z,a,z,a a", "K 2 1 600 d,z,a -"]
 
     def gen(self, rng, tier):
         cases = list(self.corpus())
@@ -76,7 +79,7 @@ class C15(Spec):
                     if rng.random() < 0.3:
                         b += "@%d" % rng.choice([200, 300, 450])     # its own, shorter time-out
                 elif r < 0.33:
-                    b = rng.choice("xX")
+                    b = rng.choice("xXz")
                 elif r < 0.38 and k <= m:
                     b = rng.choice("UPSWD")      # (no request queued behind: bytes sent while the next one is in flight ARE its response)
                 else:
@@ -116,7 +119,7 @@ class C15(Spec):
         behs = [x.split("@")[0] for x in toks]
         tmos = [int(x.split("@")[1]) if "@" in x else int(t[3]) for x in toks]
         outs = f["r"].split(",")
-        closing = any(b in "xXW" for b in behs)   # a request handed over to a connection that is being closed may be lost with it
+        closing = any(b in "xXWz" for b in behs)   # a request handed over to a connection that is being closed may be lost with it
         for i, (b, o) in enumerate(zip(behs, outs)):
             if o.startswith("F") and o != "F%d" % i:
                 return "request %d was fulfilled with the response to request %s (%s)" % (i, o[1:], case)
@@ -127,14 +130,14 @@ class C15(Spec):
                 return "request %d was answered by the server but its promise was %s (%s)" % (i, o, case)
             if b == "D" and o != "R":
                 return "request %d was answered with a response that cannot be parsed but its promise was %s (%s)" % (i, o, case)
-            if b in "adbcexgqQ" and o != "F%d" % i and not (closing and i >= int(t[2])):
+            if b in "adbcexgqQz" and o != "F%d" % i and not (closing and i >= int(t[2])):
                 return "request %d was answered by the server but its promise was %s (%s)" % (i, o, case)
             if b in "nlhHX" and (tmos[i] > 0 or b == "X") and o != "R":
                 return "request %d was not answered (%s) but its promise was %s (%s)" % (i, b, o, case)
         if f["twice"] != "0":
             return "a request's promise was settled more than once (%s)" % case
         # a pool slot opens a new connection only after its previous one was closed (time-out or server close)
-        closes = sum(1 for b in behs if b in "nlhHxXTUPSWD")
+        closes = sum(1 for b in behs if b in "nlhHxXzTUPSWD")
         if int(f["accepted"]) > int(f["limit"]) + closes:
             return "the server accepted %s connections: more than the limit %s plus the %d connections closed by time-out/server (%s)" % (f["accepted"], f["limit"], closes, case)
         return None
@@ -153,7 +156,7 @@ class C15(Spec):
             return "connection-refused"
         if "T" in t[4]:
             return "response-at-time-out"
-        if any(b in t[4] for b in "xX") and len(t[4].split(",")) > int(t[2]):
+        if any(b in t[4] for b in "xXz") and len(t[4].split(",")) > int(t[2]):
             return "server-close-with-queue"
         return "m%s-%s%s" % (t[2], "timeout" if any(b in t[4] for b in "nlhH") else "answered", "-overflow" if len(t[4].split(",")) > int(t[2]) else "")
 
